@@ -15,7 +15,9 @@
 package eventlog
 
 import (
+	"bytes"
 	"encoding/binary"
+	"errors"
 	"fmt"
 	"io"
 
@@ -80,21 +82,34 @@ func (b *Uint32SizedArray) Unmarshal(r io.Reader) error {
 	return readSizedArray(r, &size, &b.Data)
 }
 
-func makeSized[T any](size any) ([]T, error) {
+// sizeOf returns the declared size of a size-prefixed array.
+func sizeOf(size any) (uint32, error) {
 	switch s := size.(type) {
 	case *byte:
-		if *s == 0 {
-			return nil, nil
-		}
-		return make([]T, *s), nil
+		return uint32(*s), nil
 	case *uint32:
-		if *s == 0 {
-			return nil, nil
-		}
-		return make([]T, *s), nil
+		return *s, nil
 	default:
-		return nil, fmt.Errorf("unsupported array size type %T", size)
+		return 0, fmt.Errorf("unsupported array size type %T", size)
 	}
+}
+
+// readExactly reads size bytes from r. The buffer grows with the bytes actually read, so a
+// declared size larger than the input costs no more memory than the input itself.
+// It returns the number of bytes read alongside any error.
+func readExactly(r io.Reader, size uint32) ([]byte, int64, error) {
+	if size == 0 {
+		return nil, 0, nil
+	}
+	var buf bytes.Buffer
+	n, err := io.CopyN(&buf, r, int64(size))
+	if err != nil {
+		if err == io.EOF {
+			err = io.ErrUnexpectedEOF
+		}
+		return nil, n, err
+	}
+	return buf.Bytes(), n, nil
 }
 
 // Uint32SizedArrayT represents a uint32 sized array of a given type, with elements that are
@@ -118,26 +133,39 @@ func (d *Uint32SizedArrayT[T]) Unmarshal(r io.Reader) error {
 		d.Array = nil
 		return nil
 	}
-	d.Array = make([]T, size)
-	for i := range d.Array {
-		d.Array[i] = d.Array[i].Create().(T)
-		if err := d.Array[i].Unmarshal(r); err != nil {
-			return fmt.Errorf("failed to unmarshal %T element %d: %v", []T{}, i, err)
+	// Elements are appended as they are read: the declared count alone allocates nothing.
+	d.Array = nil
+	for i := uint32(0); i < size; i++ {
+		var zero T
+		elt := zero.Create().(T)
+		if err := elt.Unmarshal(r); err != nil {
+			return fmt.Errorf("failed to unmarshal %T element %d: %w", []T{}, i, noEOF(err))
 		}
+		d.Array = append(d.Array, elt)
 	}
 	return nil
+}
+
+// noEOF turns a bare end-of-input into io.ErrUnexpectedEOF: used where running out of input
+// means the enclosing structure was cut short, not that the stream ended cleanly.
+func noEOF(err error) error {
+	if errors.Is(err, io.EOF) {
+		return fmt.Errorf("%v: %w", err, io.ErrUnexpectedEOF)
+	}
+	return err
 }
 
 func readSizedArray(r io.Reader, size any, data *[]byte) error {
 	if err := binary.Read(r, binary.LittleEndian, size); err != nil {
 		return fmt.Errorf("failed to read array size as %T: %w", size, err)
 	}
-	result, err := makeSized[byte](size)
+	n, err := sizeOf(size)
 	if err != nil {
 		return err
 	}
-	if _, err := r.Read(result); err != nil {
-		return err
+	result, read, err := readExactly(r, n)
+	if err != nil {
+		return fmt.Errorf("failed to read array sized %d (read %d bytes): %w", n, read, err)
 	}
 	*data = result
 	return nil
@@ -164,7 +192,7 @@ func littleRead(r io.Reader, field string, data any) (err error) {
 // Unmarshal reads an EFI_GUID field.
 func (g *EfiGUID) Unmarshal(r io.Reader) error {
 	var efiguid [16]byte
-	if i, err := r.Read(efiguid[:]); err != nil || i != 16 {
+	if i, err := io.ReadFull(r, efiguid[:]); err != nil {
 		return fmt.Errorf("failed to read EFI_GUID (read %d bytes): %w", i, err)
 	}
 	result, _ := oabi.FromEFIGUID(efiguid[:])
